@@ -126,9 +126,15 @@ FlattenInfl(pi, ci, ti) ==
          [] sh = 1 -> [parts |-> w, sep |-> "_", trail |-> FALSE]       \* via_cat
          [] sh = 2 -> [parts |-> w, sep |-> "-", trail |-> TRUE]        \* via-cat-
          [] sh = 3 -> [parts |-> w \o LongTail, sep |-> "_", trail |-> TRUE]   \* 92/93 bytes (+4 with a tag word)
+\* one exact prefix in three is long (90+ characters): with a short item name behind it the full name lies on either
+\* side of the macro's 100-byte const-string limit, and the generator spells half of the exact prefixes with
+\* non-ASCII characters (tools/gen_naming.py: widen), so that "length" in characters and in bytes differ there
 FlattenExact(pi, ci, ti) ==
-    IF (pi + ci) % 2 = 0 THEN "Ex" \o Cap[Animals[ci]] \o (IF ti = 0 THEN "" ELSE Cap[TagWords[ti]]) \o ":"
+    LET long == (pi + ci) % 3 = 0 IN
+    IF (pi + ci) % 2 = 0 THEN "Ex" \o Cap[Animals[ci]] \o (IF ti = 0 THEN "" ELSE Cap[TagWords[ti]])
+                                   \o (IF long THEN "_" \o Join(LongTail, "_") ELSE "") \o ":"
                          ELSE "ex_" \o Animals[ci] \o "_" \o (IF ti = 0 THEN "" ELSE TagWords[ti] \o "_")
+                                    \o (IF long THEN Join(LongTail, "_") \o "_" ELSE "")
 ContainerInfl(ra) == IF ra \in {"none", "kebab"} THEN [parts |-> <<"pre", "fix">>, sep |-> "_", trail |-> TRUE]
                                                 ELSE [parts |-> <<"pre", "fix">>, sep |-> "-", trail |-> TRUE]
 ContainerExact(ra) == IF ra \in {"none", "snake"} THEN "Cx:" ELSE "cx_p_"
